@@ -23,7 +23,7 @@ func init() {
 			if tier == "quick" {
 				return 3200
 			}
-			return 48000
+			return 24000
 		},
 		Run:      runC06,
 		Required: []string{"duplications", "duplications.modular", "duplications.with_disabled", "duplications.with_recurrent", "duplications.with_nil_trait", "spawned.organisms", "followup.mutations"},
